@@ -358,3 +358,9 @@ def spec_check(recs, forest, stored, resource: bool):
         if len(mons) != len(expected) or any(m["aid"] not in starts for m in mons):
             why.append("monitor records not one per executed job")
     return why
+
+
+def child_case(case: dict, sandbox: Path):
+    task, _ = pool(case["x"])[case["name"]]
+    msgs, stored, outcome = run_impl(task, case["worker"], case["flags"], sandbox)
+    return {"msgs": msgs, "stored": stored, "outcome": outcome}
